@@ -132,15 +132,18 @@ def run_model(m):
                 # --- dictionary codec
                 try:
                     enc = DictEncoder(config=cfg, context=ctx, dict_factory=factory).encode(obj)
-                    enc_t = f"(Ok {jterm(enc)})"
-                except bx.Unsupported:
-                    raise
+                    try:
+                        enc_t = f"(Ok {jterm(enc)})"
+                    except bx.Unsupported as e:
+                        # the encoded form holds something that is not JSON native: never agrees with the model
+                        enc_t = "(Err EUnmodelled)"
+                        res["not_native"] = str(e)
                 except Exception as e:  # noqa
                     enc, enc_t = None, err_term(e)
                     res["enc_error"] = repr(e)[:300]
                 dec_t = dec_c = "(Err EUnmodelled)"
                 dumps_ok = False
-                if enc_t.startswith("(Ok"):
+                if enc_t.startswith("(Ok") or res.get("not_native"):
                     try:
                         json.dumps(enc)
                         dumps_ok = True
